@@ -27,6 +27,9 @@ def check(run):
             return True
         return False
     frames.emit(run, sel)
+    # the decoded/context decision reads hit.original, which reads the truth value of the parent node
+    from .. import noderules
+    noderules.check_original(run, "R-original")
     run.floor("V2", 2)
     run.floor("V3", 4)
     run.floor("V4", 4)
